@@ -242,8 +242,13 @@ func (r *grammarOptimizer) optimizeRule(expr Expression) Expression {
 			if len(r.ruleUsesRules[r.rule]) == 0 {
 				delete(r.ruleUsesRules, r.rule)
 			}
-			// TODO: Check if reference exists, otherwise raise an error, which reference is missing!
-			return cloneExpr(r.rules[ruleRef.Name.Val].Expr)
+			clone := cloneExpr(rule.Expr)
+			if bindsLabels(clone) {
+				// The labels of the inlined rule must stay in a scope of their own, as they
+				// were in the rule: a labeled expression without label provides exactly that.
+				return &LabeledExpr{Expr: clone, p: clone.Pos()}
+			}
+			return clone
 		}
 	}
 
@@ -264,6 +269,26 @@ func (r *grammarOptimizer) optimizeRule(expr Expression) Expression {
 	}
 
 	return expr
+}
+
+// bindsLabels reports whether evaluating expr binds a label in the scope expr is
+// evaluated in (sequences, actions and recovery expressions do not open a scope).
+func bindsLabels(expr Expression) bool {
+	switch expr := expr.(type) {
+	case *LabeledExpr:
+		return expr.Label != nil
+	case *ActionExpr:
+		return bindsLabels(expr.Expr)
+	case *SeqExpr:
+		for _, e := range expr.Exprs {
+			if bindsLabels(e) {
+				return true
+			}
+		}
+	case *RecoveryExpr:
+		return bindsLabels(expr.Expr) || bindsLabels(expr.RecoverExpr)
+	}
+	return false
 }
 
 // cloneExpr takes an Expression and deep clones it (including all children)
